@@ -172,7 +172,17 @@ class NetSim:
             me = s.cur
             while not self.stop:
                 if chip.rx:
-                    self.update(name)
+                    # (virtual-time watchdog also around the node's own polling: an update() that never returns must end the
+                    # simulation with a "hang" observation, not hang the check)
+                    me.deadline = s.now + 20_000_000_000
+                    try:
+                        self.update(name)
+                    except sim.WatchdogExpired:
+                        self.ev.append(dict(k="hang", n=name, job=-2, t=s.now // 1000))
+                        self.stop = True
+                        s.abort = True
+                        return
+                    me.deadline = None
                 sc = self.scripts.get(name)
                 if sc and s.now >= sc[0][0]:
                     _, fn = sc.pop(0)
